@@ -89,7 +89,17 @@ func c17FaultExec(j c17FaultJob) (res c17FaultRes) {
 	}
 	w.Invariants()
 	if len(w.V) > 0 {
-		return c17FaultRes{Err: "prep raised " + w.V[0].Key + ": " + w.V[0].What}
+		// the fault-free set-up already breaks an invariant: report that, there is nothing to inject into
+		for _, v := range w.V {
+			if v.Property == "HARNESS" {
+				return c17FaultRes{Err: v.What}
+			}
+			if rt.HasProp(v.Property, "C17") {
+				res.V = append(res.V, rt.Violation{Property: "C17", Key: sc.Name + "/set-up/" + v.Key, What: fmt.Sprintf("during the fault-free set-up %v: %s", sc.Prep, v.What)})
+			}
+		}
+		res.Fault = "set-up"
+		return res
 	}
 	var wi int
 	fmt.Sscanf(strings.Split(sc.Op, "|")[1], "%d", &wi)
@@ -189,6 +199,9 @@ func runC17Faults(c *rt.Ctx) {
 		json.Unmarshal(r.Out, &res)
 		if res.Err != "" {
 			rt.HarnessError("C17 fault counting run %s: %s", scns[i].Name, res.Err)
+		}
+		for _, v := range res.V {
+			c.Violate("C17/"+v.Key, v.What, c17FaultJob{FaultScn: scns[i].Name, K: -1})
 		}
 		counts[i] = res.Calls
 	})
